@@ -324,6 +324,121 @@ func (a *v6adapter) unexported(o dhcpv6.Option) *v6ref.Node {
 	if t.PkgPath() != v6pkg || t.Kind() != reflect.Struct {
 		return un
 	}
+	if n := a.unexportedByName(o, rv, t, un); n != un {
+		return n
+	}
+	// the type or one of its fields was renamed: read the value through the exported typed getters
+	// (they assert on the concrete type themselves), or through the only field of the expected kind
+	if n := a.unexportedByGetter(o, rv); n != nil {
+		return n
+	}
+	return un
+}
+
+// unexportedByGetter reads an option of an unexported type through the exported accessors of
+// MessageOptions / RelayOptions applied to a one-element list. nil if the code has no accessor
+// or the accessor does not recognise the value.
+func (a *v6adapter) unexportedByGetter(o dhcpv6.Option, rv reflect.Value) *v6ref.Node {
+	mo := dhcpv6.MessageOptions{Options: dhcpv6.Options{o}}
+	ro := dhcpv6.RelayOptions{Options: dhcpv6.Options{o}}
+	onlyField := func(k reflect.Kind) (reflect.Value, bool) {
+		var f reflect.Value
+		n := 0
+		for i := 0; i < rv.NumField(); i++ {
+			if rv.Field(i).Kind() == k {
+				f = rv.Field(i)
+				n++
+			}
+		}
+		return f, n == 1
+	}
+	switch uint16(o.Code()) {
+	case v6ref.CodeClientID, v6ref.CodeServerID:
+		d := mo.ClientID()
+		if uint16(o.Code()) == v6ref.CodeServerID {
+			d = mo.ServerID()
+		}
+		if df, ok := v6duid(d); ok {
+			return v6node(o, uint16(o.Code()), df)
+		}
+	case v6ref.CodeORO:
+		// an empty list and an unrecognised option both give nil: only trust a non-empty answer or a struct holding one slice
+		if l := mo.RequestedOptions(); l != nil {
+			return v6node(o, v6ref.CodeORO, []v6F{{Name: "Codes", Val: a.codes(l)}})
+		}
+		if f, ok := onlyField(reflect.Slice); ok && f.Len() == 0 {
+			return v6node(o, v6ref.CodeORO, []v6F{{Name: "Codes", Val: []uint16{}}})
+		}
+	case v6ref.CodeElapsed:
+		if f, ok := onlyField(reflect.Int64); ok {
+			return v6node(o, v6ref.CodeElapsed, v6dur("Centis", time.Duration(f.Int()), 10*time.Millisecond))
+		}
+	case v6ref.CodeRelayMsg:
+		if f, ok := onlyField(reflect.Interface); ok && f.IsNil() {
+			n := v6node(o, v6ref.CodeRelayMsg, nil)
+			return n
+		}
+		if inner := ro.RelayMessage(); inner != nil {
+			n := v6node(o, v6ref.CodeRelayMsg, nil)
+			n.Inner = a.message(inner)
+			return n
+		}
+	case v6ref.CodeInterfaceID:
+		if f, ok := onlyField(reflect.Slice); ok && f.Type().Elem().Kind() == reflect.Uint8 {
+			return v6node(o, v6ref.CodeInterfaceID, []v6F{{Name: "ID", Val: v6bs(f.Bytes())}})
+		}
+	case v6ref.CodeDNS:
+		if f, ok := onlyField(reflect.Slice); ok {
+			if l := mo.DNS(); len(l) == f.Len() {
+				return v6node(o, v6ref.CodeDNS, []v6F{{Name: "Addrs", Val: v6ipList(l)}})
+			}
+		}
+	case v6ref.CodeDomainList:
+		if l := mo.DomainSearchList(); l != nil {
+			return v6node(o, v6ref.CodeDomainList, []v6F{{Name: "Names", Val: v6labels(l)}})
+		}
+	case v6ref.CodeInfoRefresh:
+		if f, ok := onlyField(reflect.Int64); ok {
+			return v6node(o, v6ref.CodeInfoRefresh, v6dur("Seconds", time.Duration(f.Int()), time.Second))
+		}
+	case v6ref.CodeBootURL:
+		if f, ok := onlyField(reflect.String); ok {
+			return v6node(o, v6ref.CodeBootURL, []v6F{{Name: "URL", Val: f.String()}})
+		}
+	case v6ref.CodeBootParam:
+		if f, ok := onlyField(reflect.Slice); ok && f.Type().Elem().Kind() == reflect.String {
+			l := make([]string, 0, f.Len())
+			for i := 0; i < f.Len(); i++ {
+				l = append(l, f.Index(i).String())
+			}
+			return v6node(o, v6ref.CodeBootParam, []v6F{{Name: "Params", Val: l}})
+		}
+	case v6ref.CodeClientArch:
+		if f, ok := onlyField(reflect.Slice); ok {
+			if l := mo.ArchTypes(); len(l) == f.Len() {
+				out := make([]uint16, 0, len(l))
+				for _, x := range l {
+					out = append(out, uint16(x))
+				}
+				return v6node(o, v6ref.CodeClientArch, []v6F{{Name: "Archs", Val: out}})
+			}
+		}
+	case v6ref.CodeClientLLAddr:
+		if f, ok := onlyField(reflect.Slice); ok && f.Type().Elem().Kind() == reflect.Uint8 {
+			ht, la := ro.ClientLinkLayerAddress()
+			if len(la) == f.Len() {
+				return v6node(o, v6ref.CodeClientLLAddr, []v6F{{Name: "HWType", Val: uint64(ht)}, {Name: "LLAddr", Val: v6bs(la)}})
+			}
+		}
+	case v6ref.CodeRelayPort:
+		if f, ok := onlyField(reflect.Uint16); ok {
+			return v6node(o, v6ref.CodeRelayPort, []v6F{{Name: "Port", Val: f.Uint()}})
+		}
+	}
+	return nil
+}
+
+func (a *v6adapter) unexportedByName(o dhcpv6.Option, rv reflect.Value, t reflect.Type, un *v6ref.Node) *v6ref.Node {
 	field := func(n string) (reflect.Value, bool) {
 		f := rv.FieldByName(n)
 		return f, f.IsValid()
